@@ -31,7 +31,7 @@ class Kernel:
         for (n, t) in self.fn.args:
             t0 = t.lstrip("&").strip()
             if "{closure@" in t0:
-                args.append(mir.Opaque("env"))
+                args.append(mir.LazyEnv("env%d" % self.n))
             elif t0 in mir.INT_W or t0 in ("f64", "bool"):
                 args.append(mir.V(t0, next(it)))
             else:
